@@ -58,7 +58,7 @@ def hostile_names(sbox, rng):
     esc = os.path.join(sbox, "outer", "E").encode()       # absolute, inside the watched tree, outside the extraction directory
     base = [b"..", b"../x", b"../../x", b"a/../../b", b"..\\x", b"/abs", esc[:30], (esc + b"/x")[:30], (esc + b"/p/q")[:30],
             os.path.join(sbox, "outer").encode()[:30], b"./../y", b"x/..", b"...", b"..a", b"a..", b"/",
-            b"//", b"a//b", b"..//x", b"/../z", b"\\..\\w", b". .", b"../", b"x/../../../../y", b".. /q"]
+            b"//", b"a//b", b"..//x", b"/../z", b"a//..//..//esc1", b"/..//..//esc2", b"a//../..//esc3", b"//..", b"x//..//y", b"\\..\\w", b". .", b"../", b"x/../../../../y", b".. /q"]
     for _ in range(6):
         base.append(bytes(rng.choice([46, 46, 47, 92, 97, 98]) for _ in range(rng.randint(1, 12))))
     return base
